@@ -147,8 +147,16 @@ def diff_snapshots(a, b):
             if ea[key] != eb[key]:
                 return ("type", "%s: %s changed %r -> %r" % (path, key, ea[key], eb[key]))
         if not torch.equal(ea["val"], eb["val"]):
-            return ("value", "%s: value changed by %.3e" % (path, float((ea["val"] - eb["val"]).abs().max())))
+            return ("value", "%s: value changed by %.3e" % (path, _absdiff(ea["val"], eb["val"])))
     return None
+
+
+def _absdiff(a, b):
+    """largest absolute difference, for the message only (bool / float8 / integer tensors do not support subtraction or abs)"""
+    if a.shape != b.shape or a.numel() == 0:
+        return float("nan")
+    ca, cb = ((a.to(torch.complex128), b.to(torch.complex128)) if a.dtype.is_complex else (a.to(torch.float64), b.to(torch.float64)))
+    return float((ca - cb).abs().max())
 
 
 # =============================================================================================== function kinds
@@ -160,6 +168,8 @@ def build_fn(core, leaves, spec, counter):
     """gen.build_function plus the two C10-specific kinds.  Returns (fcn, params, info)."""
     import xitorch
     kind = spec["kind"]
+    if kind in EXTRA_KINDS_R3:
+        return _build_fn_r3(core, leaves, spec, counter)
     if kind not in EXTRA_KINDS:
         return gen.build_function(core, leaves, spec, counter)
     derive = spec["derive"]
@@ -236,6 +246,205 @@ def make_leaves(values, req, kind):
     if kind in EXTRA_KINDS:
         return [torch.nn.Parameter(v.clone(), requires_grad=bool(r)) for v, r in zip(values, req)]
     return gen.make_leaves(values, req, kind)
+
+
+# ----------------------------------------------------------------------------------------------- round-3 kinds
+# em_mixed: EditableModule holding, next to its float64 tensors, tensors of OTHER dtypes (declared in getparamnames or
+#           not) as attributes / in a list / in a dict / as Parameters of a held nn.Module, at drawn places of the attribute order.
+# em_map:   EditableModule whose declared names (attributes, list items, dict items) refer to fewer distinct tensors:
+#           spec["amap"][k] = index of the distinct tensor under the k-th name (an arbitrary surjection, canonical numbering).
+
+EXTRA_KINDS_R3 = ["em_mixed", "em_map"]
+
+DTYPE_NAMES = ["bfloat16", "float16", "float32", "float64", "complex128", "complex64", "int64", "int32", "uint8", "bool",
+               "float8_e5m2", "float8_e4m3fn"]
+# dtypes EditableModule.assertparams (debug mode) accepts for a *declared* name (its "Parameter ... is a non-floating point tensor" rule)
+DECLARABLE_DTYPES = ["float16", "float32", "float64"]
+
+
+def canon_map(raw):
+    """numbering by first occurrence: [3, 3, 0, 1, 0] -> [0, 0, 1, 2, 1] (a surjection onto 0..U-1)"""
+    seen, out = {}, []
+    for r in raw:
+        out.append(seen.setdefault(int(r), len(seen)))
+    return out
+
+
+def extra_tensor(k, dtname, req=False):
+    """the k-th other-dtype tensor of an object (shape (2,), values exactly representable in every dtype)"""
+    dt = getattr(torch, dtname)
+    if dtname == "bool":
+        t = torch.tensor([True, k % 2 == 0])
+    elif dt.is_complex:
+        t = torch.complex(torch.tensor([0.5 + 0.25 * k, 1.0], dtype=DT), torch.tensor([0.25, -0.5], dtype=DT)).to(dt)
+    elif dt.is_floating_point:
+        t = torch.tensor([0.5 + 0.25 * k, 1.0], dtype=DT).to(dt)
+    else:
+        t = torch.tensor([k + 1, 2]).to(dt)
+    if req and dt.is_floating_point and not dtname.startswith("float8"):
+        t.requires_grad_()
+    return t
+
+
+def extra_value(t):
+    """what a method does with such a tensor: a float64 number"""
+    if t.dtype.is_complex:
+        return t.real.to(DT).sum() + 0.5 * t.imag.to(DT).sum()
+    return t.to(DT).sum()
+
+
+def _build_fn_r3(core, leaves, spec, counter):
+    import xitorch
+    from xitorch._utils.attr import get_attr
+    kind = spec["kind"]
+    derive = spec["derive"]
+    neff = len(derive)
+    explicit = list(spec.get("explicit") or [False] * neff)
+    scale = float(spec.get("scale", 1.0))
+    nontensor = bool(spec.get("nontensor", False))
+    unused_mode = spec.get("unused")
+    unused_t = torch.full((2,), 0.37, dtype=DT).requires_grad_() if unused_mode else None
+    eff_out = gen.derive_all(derive, leaves)
+    obj_idx = [j for j in range(neff) if not explicit[j]]
+    exp_idx = [j for j in range(neff) if explicit[j]]
+    params = [eff_out[j] for j in exp_idx]
+    if unused_mode == "explicit":
+        params.append(unused_t)
+    if nontensor:
+        params.append(scale)
+
+    def assemble(held, args):
+        ntail = len(params)
+        xs = args[:len(args) - ntail] if ntail else args
+        tail = args[len(args) - ntail:] if ntail else ()
+        eff = [None] * neff
+        for k, j in enumerate(exp_idx):
+            eff[j] = tail[k]
+        for j in obj_idx:
+            eff[j] = held[j]
+        return xs, eff, (tail[-1] if nontensor else scale)
+
+    info = {"obj": None, "objs": [], "unused": unused_t, "counter": counter, "extra_wrt": []}
+    # layout: ordered list of (attribute name, value) set in __init__; names: every declared name in order
+    attrs, declared = [], []
+    fac_names = []          # (name, coefficient) of tensors entering through the factor 1 + 0.01 * sum(c * value)
+    held_names = {}         # j -> [(name, weight)]: eff j = weighted mean of the tensors under these names
+
+    if kind == "em_mixed":
+        order = ["t%d" % j for j in obj_idx] + (["unused"] if unused_mode == "object" else [])
+        values = {"t%d" % j: eff_out[j] for j in obj_idx}
+        if unused_mode == "object":
+            values["unused"] = unused_t
+        declared = list(order)
+        for j in obj_idx:
+            held_names[j] = [("t%d" % j, 1.0)]
+        modparams = []
+        for k, ex in enumerate(spec.get("extras", [])):
+            t = extra_tensor(k, ex["dt"], req=bool(ex.get("req")) and bool(ex.get("decl")))
+            where = ex["where"]
+            if where == "attr":
+                attr, name = "x%d" % k, "x%d" % k
+                values[attr] = t
+            elif where == "list":
+                attr = "xl"
+                values.setdefault(attr, [])
+                name = "xl[%d]" % len(values[attr])
+                values[attr].append(t)
+            elif where == "dict":
+                attr, name = "xd", "xd['e%d']" % k
+                values.setdefault(attr, {})["e%d" % k] = t
+            elif where == "mod":
+                attr, name = "xm", "xm.x%d" % k
+                t = torch.nn.Parameter(t.detach(), requires_grad=t.requires_grad)
+                modparams.append(("x%d" % k, t))
+            else:
+                raise ValueError(where)
+            if attr not in order:
+                order.insert(int(ex["pos"]) % (len(order) + 1), attr)
+            if t.requires_grad:
+                info["extra_wrt"].append(t)
+            fac_names.append((name, 1.0 + 0.5 * k))
+            if ex.get("decl"):          # listed in getparamnames, at a drawn place of the list
+                declared.insert(int(ex.get("declpos", len(declared))) % (len(declared) + 1), name)
+        if modparams:
+            class XHolder(torch.nn.Module):
+                def __init__(self):
+                    super().__init__()
+                    for nm, p_ in modparams:
+                        setattr(self, nm, p_)
+            values["xm"] = XHolder()
+        attrs = [(a, values[a]) for a in order]
+    elif kind == "em_map":
+        amap = [int(u) for u in spec["amap"]]
+        K, U = len(amap), max(amap) + 1
+        if amap != canon_map(amap) or not 1 <= len(obj_idx) <= U:
+            raise ValueError("em_map: amap %r must be canonical and cover the %d object-held tensors" % (amap, len(obj_idx)))
+        nwhere = list(spec.get("nwhere") or [0] * K)
+        T = [eff_out[j] for j in obj_idx]
+        for u in range(len(obj_idx), U):        # further tensors of the object: leaves of their own
+            f = torch.full((2,), 0.1 * (u + 1), dtype=DT).requires_grad_()
+            T.append(f)
+            info["extra_wrt"].append(f)
+        lst, dct = [], {}
+        for k in range(K):
+            if nwhere[k] == 1:
+                name = "lst[%d]" % len(lst)
+                lst.append(T[amap[k]])
+                if len(lst) == 1:
+                    attrs.append(("lst", lst))
+            elif nwhere[k] == 2:
+                name = "dct['k%d']" % k
+                dct["k%d" % k] = T[amap[k]]
+                if len(dct) == 1:
+                    attrs.append(("dct", dct))
+            else:
+                name = "a%d" % k
+                attrs.append((name, T[amap[k]]))
+            declared.append(name)
+            if amap[k] < len(obj_idx):
+                held_names.setdefault(obj_idx[amap[k]], []).append((name, float(k + 1)))
+            else:
+                fac_names.append((name, float(k + 1)))
+        if unused_mode == "object":
+            attrs.append(("unused", unused_t))
+            declared.append("unused")
+    else:
+        raise ValueError(kind)
+
+    class EMFun3(xitorch.EditableModule):
+        def __init__(self):
+            for a, v in attrs:
+                setattr(self, a, v)
+
+        def evaluate(self, *args):
+            counter.tick()
+            held = {}
+            for j, lst_ in held_names.items():
+                if len(lst_) == 1:
+                    held[j] = get_attr(self, lst_[0][0])
+                else:
+                    held[j] = sum(w * get_attr(self, nm) for nm, w in lst_) / sum(w for _, w in lst_)
+            xs, eff, sc = assemble(held, args)
+            out = core(xs, eff, sc)
+            if fac_names:
+                fac = 1.0 + 0.01 * sum(c * extra_value(get_attr(self, nm)) for nm, c in fac_names)
+                out = out * fac if isinstance(out, torch.Tensor) else tuple(o * fac for o in out)
+            return out
+
+        def getparamnames(self, methodname, prefix=""):
+            if methodname != "evaluate":
+                raise KeyError(methodname)
+            return [prefix + nm for nm in declared]
+    obj = EMFun3()
+    info["obj"] = obj
+    info["objs"] = [obj] + ([obj.xm] if hasattr(obj, "xm") else [])
+    if spec.get("sib"):     # through a caller-held sibling PureFunction (as kind sib1)
+        @xitorch.make_sibling(obj.evaluate)
+        def sib(*args):
+            return obj.evaluate(*args)
+        info["keep"] = sib
+        return sib, tuple(params), info
+    return obj.evaluate, tuple(params), info
 
 
 # =============================================================================================== linear operators
@@ -321,6 +530,153 @@ def make_linop(kind, impl, hermitian, A0, d0, counter, n):
     return op
 
 
+# ----------------------------------------------------------------------------------------------- round-3 operator kinds
+# map:  one user LinearOperator whose K parameter names q0..q{K-1} refer to U <= K distinct tensors (amap: arbitrary surjection)
+# comp: an operator composed (matmul / + / scalar * / .H, drawn association) of K user leaf operators that share U distinct
+#       tensors: the parameter-name list of the composite is the leaf sequence, i.e. again an arbitrary surjection
+
+LINOP_KINDS_R3 = ["map", "comp"]
+
+
+def _add_products(cls, impl, counter):
+    """product methods of a user operator class that has _mat(); every one ticks the evaluation counter"""
+    def _mv(self, x):
+        counter.tick()
+        return torch.matmul(self._mat(), x.unsqueeze(-1)).squeeze(-1)
+    cls._mv = _mv
+    if impl in ("mv_rmv", "all"):
+        def _rmv(self, x):
+            counter.tick()
+            return torch.matmul(self._mat().transpose(-2, -1), x.unsqueeze(-1)).squeeze(-1)
+        cls._rmv = _rmv
+    if impl in ("mv_mm", "all"):
+        def _mm(self, x):
+            counter.tick()
+            return torch.matmul(self._mat(), x)
+        cls._mm = _mm
+    if impl == "all":
+        def _rmm(self, x):
+            counter.tick()
+            return torch.matmul(self._mat().transpose(-2, -1), x)
+
+        def _fullmatrix(self):
+            counter.tick()
+            return self._mat()
+        cls._rmm = _rmm
+        cls._fullmatrix = _fullmatrix
+    return cls
+
+
+def comp_structure(K, tree):
+    """terms (lists of leaf indices), per-term right-association flags, sum association, per-term factor"""
+    tree = tree or {}
+    cuts = list(tree.get("cuts") or [])
+    terms, cur = [], [0]
+    for k in range(1, K):
+        if k - 1 < len(cuts) and cuts[k - 1]:
+            terms.append(cur)
+            cur = []
+        cur.append(k)
+    terms.append(cur)
+    assoc = int(tree.get("assoc", 0))
+    scl = list(tree.get("scl") or [])
+    factors = [[1.0, 0.5, 2.0][int(scl[t[0]]) % 3] if t[0] < len(scl) else 1.0 for t in terms]
+    return terms, [bool((assoc >> i) & 1) for i in range(len(terms))], bool((assoc >> 7) & 1), factors
+
+
+def compose(K, tree, mkleaf, hermitian):
+    """the composite of K leaf operators described by `tree`: sum (drawn association) of terms, each term a product chain (drawn
+    association) of consecutive leaves times a factor; mkleaf(k, use_adj) returns the k-th leaf operator (through .H if use_adj).
+    The leaves must commute and be symmetric (diagonal), so that every product is symmetric.  Where the composite must be flagged
+    Hermitian (symeig, cg: `hermitian`), only leaves inside a product are used through .H (a product carries its own flag)."""
+    tree = tree or {}
+    adj = list(tree.get("adj") or [])
+    terms, rassoc, sum_right, factors = comp_structure(K, tree)
+    built = []
+    for ti, term in enumerate(terms):
+        ops = [mkleaf(k, k < len(adj) and bool(adj[k]) and (len(term) >= 2 or not hermitian)) for k in term]
+        if rassoc[ti]:
+            node = ops[-1]
+            for o in ops[-2::-1]:
+                node = o.matmul(node, is_hermitian=True)
+        else:
+            node = ops[0]
+            for o in ops[1:]:
+                node = node.matmul(o, is_hermitian=True)
+        if factors[ti] != 1.0:
+            node = node * factors[ti]
+        built.append(node)
+    if sum_right:
+        A = built[-1]
+        for o in built[-2::-1]:
+            A = o + A
+    else:
+        A = built[0]
+        for o in built[1:]:
+            A = A + o
+    return A
+
+
+def make_linop_r3(kind, impl, hermitian, A0, d0, counter, n, amap, tree=None):
+    import xitorch
+    amap = [int(u) for u in amap]
+    K, U = len(amap), max(amap) + 1
+    if amap != canon_map(amap):
+        raise ValueError("amap must be numbered by first occurrence: %r" % (amap,))
+    P = 0.3 * (A0 + A0.transpose(-2, -1)) * 0.5 if hermitian else 0.3 * A0
+    if kind == "map":
+        d = 2.0 + d0 * d0
+        D = [P + torch.diag_embed(d)] if U == 1 else [P, d, 0.1 * d0 * d0 + 0.05, 0.05 * torch.tanh(A0.diagonal()) + 0.1][:U]
+        groups = [[k for k in range(K) if amap[k] == u] for u in range(U)]
+
+        class MapOp(xitorch.LinearOperator):
+            def __init__(self):
+                super().__init__(shape=(n, n), is_hermitian=hermitian, dtype=DT)
+                for k in range(K):
+                    setattr(self, "q%d" % k, D[amap[k]])
+
+            def _mat(self):
+                total = None
+                for ks in groups:        # each distinct tensor is read through all of its names
+                    if len(ks) == 1:
+                        t = getattr(self, "q%d" % ks[0])
+                    else:
+                        t = sum((k + 1.0) * getattr(self, "q%d" % k) for k in ks) / sum(k + 1.0 for k in ks)
+                    t = t if t.dim() >= 2 else torch.diag_embed(t)
+                    total = t if total is None else total + t
+                return total
+
+            def _getparamnames(self, prefix=""):
+                return [prefix + "q%d" % k for k in range(K)]
+        return _add_products(MapOp, impl, counter)()
+    if kind != "comp":
+        raise ValueError(kind)
+    tree = tree or {}
+    # positive, bounded diagonals (0.8 .. 1.3): every sum of products of them is symmetric positive definite
+    T = [1.05 + 0.25 * torch.tanh(d0), 1.05 + 0.25 * torch.tanh(A0.diagonal()), 1.05 + 0.25 * torch.sin(d0),
+         1.05 + 0.25 * torch.cos(A0[0])][:U]
+
+    class Leaf(xitorch.LinearOperator):
+        def __init__(self, t, herm):
+            super().__init__(shape=(n, n), is_hermitian=herm, dtype=DT)
+            self.d = t
+
+        def _mat(self):
+            return torch.diag_embed(self.d) if self.d.dim() == 1 else self.d
+
+        def _getparamnames(self, prefix=""):
+            return [prefix + "d"]
+    _add_products(Leaf, impl, counter)
+    def mkleaf(k, use_adj):
+        # a leaf used through .H is declared non-Hermitian (the flag only allows short-cuts, it claims nothing when False)
+        lf = Leaf(T[amap[k]], not use_adj)
+        return lf.H if use_adj else lf
+    A = compose(K, tree, mkleaf, hermitian)
+    if tree.get("dense"):
+        A = A + Leaf(0.15 * P, hermitian)
+    return A
+
+
 # =============================================================================================== problems
 
 class Problem:
@@ -390,6 +746,7 @@ def build_fcn_problem(case, counter):
     if info.get("unused") is not None:
         pb.wrt.append(info["unused"])
         pb.roots.append(("unused", info["unused"]))
+    pb.wrt += list(info.get("extra_wrt", []))       # round-3 kinds: further differentiable tensors held by the object
     if isinstance(fcn, xitorch._core.pure_function.PureFunction):
         pb.pfuncs.append(fcn)
     y0 = (0.1 * torch.randn((m,), generator=g, dtype=DT))
@@ -519,9 +876,12 @@ def build_op_problem(case, counter):
         # the usual idiom: a fresh LinearOperator.m(matrix) per call (C19 only; no user callback to inject into)
         A = None
     else:
-        A = make_linop(case["lkind"], case["impl"], hermitian, A0, d0, counter, n)
+        if case["lkind"] in LINOP_KINDS_R3:
+            A = make_linop_r3(case["lkind"], case["impl"], hermitian, A0, d0, counter, n, case["amap"], case.get("tree"))
+        else:
+            A = make_linop(case["lkind"], case["impl"], hermitian, A0, d0, counter, n)
     pb.roots = [("A", A), ("leaves", [A0, d0])]
-    pb.retain = case["lkind"] in ("attr", "alias", "cont")
+    pb.retain = case["lkind"] in ("attr", "alias", "cont", "map", "comp")
     pb.wrt = [t for t in (A0, d0) if t.requires_grad]
     M = None
     m0 = None
